@@ -209,8 +209,9 @@ class C24(Check):
             r = subprocess.run([self.ptgpp, "--noline", "-i", "t.jdf", "-o", "t", "-f", "t", "--"] + inc,
                                cwd=d, capture_output=True, text=True, timeout=120)
         except subprocess.TimeoutExpired:
-            return "accept=0 overflow=0 det=1 undiag=0 <timeout>"
+            return "accept=0 overflow=0 det=1 undiag=0 werr_bad=0 <timeout>"
         acc = 1 if r.returncode == 0 else 0
+        compiled = os.path.exists(os.path.join(d, "t.o"))
         over = 0
         # a rejection must come with a diagnostic of the compiler itself (or the "#error Too many ..." guard it writes
         # into the generated C): C that merely fails to compile without any such diagnostic is not a rejection
@@ -232,9 +233,16 @@ class C24(Check):
                 acc = 0
         det = 1
         outs = []
+        werr_bad = 0
         for k in (1, 2):
-            subprocess.run([self.ptgpp, "--noline", "-E", "-i", "t.jdf", "-o", "u%d" % k, "-f", "t"],
-                           cwd=d, capture_output=True, text=True, timeout=120)
+            # second mode of use: emit only (-E), warnings are errors.  An exit status 0 there promises C that compiles.
+            rw = subprocess.run([self.ptgpp, "--Werror", "--noline", "-E", "-i", "t.jdf", "-o", "u%d" % k, "-f", "t"],
+                                cwd=d, capture_output=True, text=True, timeout=120)
+            if k == 1 and rw.returncode == 0 and not compiled:
+                werr_bad = 1
+            if rw.returncode != 0:
+                subprocess.run([self.ptgpp, "--noline", "-E", "-i", "t.jdf", "-o", "u%d" % k, "-f", "t"],
+                               cwd=d, capture_output=True, text=True, timeout=120)
             try:
                 outs.append(open(os.path.join(d, "u%d.c" % k)).read().replace("u%d" % k, "u") +
                             open(os.path.join(d, "u%d.h" % k)).read().replace("u%d" % k, "u"))
@@ -243,7 +251,7 @@ class C24(Check):
         if outs[0] != outs[1]:
             det = 0
         shutil.rmtree(d, ignore_errors=True)
-        return "accept=%d overflow=%d det=%d undiag=%d" % (acc, over, det, self_undiag)
+        return "accept=%d overflow=%d det=%d undiag=%d werr_bad=%d" % (acc, over, det, self_undiag, werr_bad)
 
     def run_impl(self, casefile, n):
         cases = [l.rstrip("\n") for l in open(casefile) if l.strip() and not l.startswith("#")]
@@ -256,10 +264,13 @@ class C24(Check):
 
     # ---- property on the implementation's observation ----------------------
     def oracle(self, case, obs):
-        m = re.match(r"accept=(\d) overflow=(\d+) det=(\d) undiag=(\d)", obs)
+        m = re.match(r"accept=(\d) overflow=(\d+) det=(\d) undiag=(\d) werr_bad=(\d)", obs)
         if not m:
             return "unparsable observation " + obs
         acc, over, det, undiag = int(m.group(1)), int(m.group(2)), int(m.group(3)), int(m.group(4))
+        if int(m.group(5)):
+            return ("parsec-ptgpp --Werror -E exits with status 0 and no diagnostic, but the C it emits does not compile "
+                    "(a limit of the runtime is exceeded and only the generated #error notices it)")
         if undiag:
             return ("parsec-ptgpp generated C that does not compile without diagnosing the input itself "
                     "(no Fatal/parse error of its own, no limit guard): not a rejection with a diagnostic")
@@ -278,11 +289,13 @@ class C24(Check):
     def signature(self, case, obs):
         if "det=0" in obs:
             return "nondeterministic"
-        if "undiag=1" in obs:
+        if "undiag=1" in obs or "werr_bad=1" in obs:
             mal, prog = J.parse_case(case)
             if mal is None and any(acc == "C" and dep[0] == "i" and J.ldefs(dep)[0] and max(J.ldefs(dep)[1:])
                                    for (nloc, flows) in prog for (acc, deps) in flows for dep in deps):
                 return "undiagnosed-ctl-gather-ldef-both-levels"
+            if "werr_bad=1" in obs and "undiag=0" in obs:
+                return "werror-accepts-uncompilable"
             return "undiagnosed-" + (case.split("|")[0].strip())
         mal, m = self.counts(case)
         worst = sorted(((v - LIM[k], k) for (k, v) in m), reverse=True)[0]
